@@ -289,8 +289,8 @@ def main():
             "enable": "no source hooks: checks copy /repo/traits to a scratch directory, compile ctraits.c there and "
                       "import only that copy (harness/build.py); ENTHOUGHT_TRAITS_VERIF=1 is set in the check process "
                       "but nothing in /repo reads it",
-            "baseline_off_cmd": "cd /repo && /venv/bin/python -m pytest -q -p no:cacheprovider --timeout=900 traits",
-            "source_commits": [],
+            "baseline_off_cmd": "cd /repo && /venv/bin/python -m pytest -ra -q -p no:cacheprovider --timeout=900 --continue-on-collection-errors",
+            "source_commits": [],   # no guarded hooks; the unguarded `fix:` commits in /repo are listed in known_findings.json
             "add_only": True,
         },
         "engines": [{
